@@ -172,21 +172,10 @@ Qed.
 
 (* ------------------------------------------------------------------ aliased calls x.OpMut(x) *)
 (* the receiver passed as its own argument: Add, Sub, Mul, QuoRoundUpNextInt are what the non-mutating form gives *)
-Definition alias_spec (m : nat -> nat -> M nat) (f : Z -> Z -> Z) (chk : Z -> bool) (dv : bool) : Prop :=
-  forall h d, (d < next h)%nat ->
-  spec (m d d) h (fun h' r => r = d /\ obs_of (Ok h' r) = expected f chk dv (rd h d) (rd h d))
-                 (fun e h' => obs_of (Panic e h') = expected f chk dv (rd h d) (rd h d)).
 Lemma AddMut_alias : alias_spec AddMut bd_add bd_fits false.
 Proof. intros h d Hd. unfold AddMut. ssteps. apply finish_bd; [apply nodiv|heap_simp; reflexivity]. Qed.
 Lemma SubMut_alias : alias_spec SubMut bd_sub bd_fits false.
 Proof. intros h d Hd. unfold SubMut. ssteps. apply finish_bd; [apply nodiv|heap_simp; reflexivity]. Qed.
-Lemma MulMut_alias : alias_spec MulMut bd_mul bd_fits false.
-Proof.
-  intros h d Hd. unfold MulMut. ssteps.
-  scall (chopPrecisionAndRoundP_ok P36 five36); [discriminate|reflexivity|heap_simp; lia|].
-  intros h1 r [-> V]. heap_simp_in V.
-  apply finish_bd; [apply nodiv|exact V].
-Qed.
 Theorem aliased_mut_agree : forall h d, (d < next h)%nat ->
   obs_of (AddMut d d h) = obs_of (Add d d h) /\ obs_of (SubMut d d h) = obs_of (Sub d d h) /\
   obs_of (MulMut d d h) = obs_of (Mul d d h).
@@ -303,6 +292,36 @@ Theorem bigint_cells_refine_values :
        (fun e h' => obs_of (Panic e h') = expected Z.mul fits1024 false (rd h d) (rd h d2))).
 Proof.
   exact (conj BI_Add_spec (conj BI_Sub_spec (conj BI_Quo_spec (conj BI_Mod_spec BI_Mul_spec)))).
+Qed.
+
+(* PowerInteger / Power: the square-and-multiply loops (which call d.MulMut(d) on purpose) compute the value-level
+   loop [power_loop_v] with a range assertion after every multiplication; both forms return the same value or both fail *)
+Definition same_outcome (r1 r2 : res nat) : Prop :=
+  match r1, r2 with
+  | Ok h1 l1, Ok h2 l2 => rd h1 l1 = rd h2 l2
+  | Panic _ _, Panic _ _ => True
+  | _, _ => False
+  end.
+Theorem power_cells_refine_values : forall k h d, (d < next h)%nat ->
+  spec (PowerIntegerMut d k) h (fun h' r => bd_power_v (rd h d) k = Some (rd h' r) /\ (k <> 0 -> r = d))
+                               (fun e h' => bd_power_v (rd h d) k = None) /\
+  spec (PowerInteger d k) h (fun h' r => bd_power_v (rd h d) k = Some (rd h' r)) (fun e h' => bd_power_v (rd h d) k = None) /\
+  spec (D_PowerMut d k) h (fun h' r => d_power_v (rd h d) k = Some (rd h' r) /\ r = d) (fun e h' => d_power_v (rd h d) k = None) /\
+  spec (D_Power d k) h (fun h' r => d_power_v (rd h d) k = Some (rd h' r)) (fun e h' => d_power_v (rd h d) k = None) /\
+  same_outcome (PowerIntegerMut d k h) (PowerInteger d k h) /\ same_outcome (D_PowerMut d k h) (D_Power d k h).
+Proof.
+  intros k h d Hd.
+  pose proof (PowerIntegerMut_spec k h d Hd) as A. pose proof (PowerInteger_spec k h d Hd) as B.
+  pose proof (D_PowerMut_spec k h d Hd) as C. pose proof (D_Power_spec k h d Hd) as D.
+  repeat split; try assumption; unfold spec, same_outcome in *.
+  - destruct (PowerIntegerMut d k h) as [h1 l1|e1 h1], (PowerInteger d k h) as [h2 l2|e2 h2]; try exact I.
+    + destruct A as [A _]. rewrite A in B. inversion B. reflexivity.
+    + destruct A as [A _]. rewrite A in B. discriminate B.
+    + rewrite A in B. discriminate B.
+  - destruct (D_PowerMut d k h) as [h1 l1|e1 h1], (D_Power d k h) as [h2 l2|e2 h2]; try exact I.
+    + destruct C as [C _]. rewrite C in D. inversion D. reflexivity.
+    + destruct C as [C _]. rewrite C in D. discriminate D.
+    + rewrite C in D. discriminate D.
 Qed.
 
 (* ------------------------------------------------------------------ directions, with the constants read from the source *)
